@@ -72,7 +72,8 @@ claim("C11", "DESIGN.md 5 C11",
       "rtpconn.handleClientMessage (600 lines, every path) is verified against call-site obligations: each privileged effect is reached only with c.group != nil and the permission it needs "
       "(gotOffer: present; chat/usermessage forwarding and history: message or caption; clearchat, lock, subgroups, setdata, op/unop/present/..., identify, kick: op; record/unrecord: record; "
       "maketoken: token, own group, no subgroups, an expiry, and every delegated permission held - loop invariant; edittoken/listtokens: op and token, own group only; setdata on oneself only), "
-      "and against the invariant 'a client that is not a member holds no permission', which is a pre- and postcondition of the handler on every return (it fails at the old redirect return and after the old AddClient: both repaired).",
+      "and against the invariant 'a client that is not a member holds no permission', which is a pre- and postcondition of the handler on every return (it fails at the old redirect return and after the old AddClient: both repaired). "
+      "Token listing reaches only the member's own group: token.List / state.List / state.list return, for a named group, only tokens whose group is exactly that group (loop invariant over the collected tokens; sort.Slice as a permutation in place) - not tokens of an enclosing group, not global ones.",
       "leaveGroup is verified (a client that has left holds no permission and no group, and leaves through group.DelClient); handleAction is under contract for its guards (connection offers and membership events are handled only for the client's current group; a membership event handled after the client left used to dereference a nil group: repaired); "
       "the WHIP handlers are under contract: every effect on a WHIP session (close, version checks, ICE restart and candidates) comes after the session's bearer token was compared with the one presented, and a publisher's connection is created only after admission with the present permission. "
       "Assumed: frames of the handler's callees marked trusted (they leave c.group, c.permissions, c.id, c.username alone: gotOffer, negotiate, delUpConn, ... listed in the evidence), token and diskwriter externs. "
@@ -171,9 +172,13 @@ claim("C20", "DESIGN.md 5 C20",
       "adjustOrigin (audio and video share one time origin): when a file is opened the shift is computed from the opening track's timestamp at its own clock rate, and every track with an origin is moved by that same duration converted at THAT track's clock rate. "
       "diskConn.close (stopping the recording / departure of the publisher): every track is flushed first and then every writer is closed - when close returns no track is left with an open writer, it returns all the tracks and the connection has no file "
       "(close flushed and closed track by track, so a writer created by a later track's flush stayed open and the file unfinished: repaired). "
-      "initWriter: a track that had a time origin still has one when the file has been opened or - for a keyframe with new dimensions - reopened, so that keyframe and the frames after it are written (the reopening cleared the origin and every frame until the next keyframe was dropped: repaired); setOrigin always leaves the track with an origin.",
-      "Assumed: pion rtp.Packet.Unmarshal, writeRTP, writeBuffered and requestKeyframe (trusted: they keep the track's connection, publisher, list of tracks and lock; writeBuffered may create writers for every track), BlockWriteCloser.Close has no effect on the recorder's state; rtptime.FromDuration/ToDuration as pure functions of their arguments (128-bit arithmetic, not modelled). "
-      "NOT decided (the larger part of the statement): everything inside writeRTP/writeBuffered, pion samplebuilder and ebml-go - frame completeness, order, duplicates, 'no frame after the first keyframe is missing', monotone timestamps, the rest of the shared-origin logic (setOrigin, sender reports), container well-formedness, flush on close. "
+      "initWriter: a track that had a time origin still has one when the file has been opened or - for a keyframe with new dimensions - reopened, so that keyframe and the frames after it are written (the reopening cleared the origin and every frame until the next keyframe was dropped: repaired); setOrigin always leaves the track with an origin; "
+      "initWriter leaves the connection's list of tracks and every track's connection in place. "
+      "writeBuffered (the body is under contract): every block handed to the container writer is the popped sample's own data with the keyframe flag computed for it, stamped with (sample time - track origin) modulo 2^32 divided by the track's own clock rate in kHz, and only while the track has an origin; "
+      "its calls of close and initWriter meet their preconditions on every iteration (loop invariant over the connection's tracks).",
+      "Assumed: pion rtp.Packet.Unmarshal, writeRTP and requestKeyframe (trusted: they keep the track's connection, publisher, list of tracks and lock); two frame postconditions of writeBuffered that its callers rely on (`trusts keeps`, `keeps-tracks`: listed as assumptions, not proved - its body is verified for the clauses above); "
+      "samplebuilder Pop/ForcePopWithTimestamp and BlockWriteCloser.Write/Close have no effect on the recorder's state; the type invariant of a recording connection (its tracks are real, belong to it, have a publisher; the track is one of them); rtptime.FromDuration/ToDuration as pure functions of their arguments (128-bit arithmetic, not modelled). "
+      "NOT decided (the larger part of the statement): everything inside writeRTP, pion samplebuilder and ebml-go - frame completeness, order, duplicates, 'no frame after the first keyframe is missing', monotone timestamps, the rest of the shared-origin logic (sender reports), which samples writeBuffered skips, container well-formedness, flush on close. "
       "These need contracts on third-party sample assembly and container code that is outside the repository.")
 
 PENDING = "not yet carried by the engine in this build (work in progress; see DESIGN.md section 9 for the order of work)"
